@@ -219,22 +219,29 @@ def m_dup_folder_discard(f, case, viol):
     discarded, and a later delete of P on that pair is ignored.  History: no rename; >= 2 mkdir of one path P and >= 1
     rmtree/rmdir of P with no quiet point anywhere between the first and the last of them; every differing path is P or below."""
     ops = user_ops(case)
-    if any(u[2] in ("rename", "rename_dir") for u in ops):
-        return False
     plan = case.get("plan", [])
+    ci = "_" in str(case.get("cfg", {}).get("flavour", ""))     # a pair with a case-insensitive side: d1 and D1 are one name
+
+    def fold(x):
+        return x.lower() if ci else x
     cands = set()
-    for P in set(u[3] for u in ops if u[2] == "mkdir"):
-        idx = [i for i, it in enumerate(plan) if it and it[0] == "U" and it[3] == P and it[2] in ("mkdir", "rmtree", "rmdir")]
+    for P in set(fold(u[3]) for u in ops if u[2] == "mkdir"):
+        idx = [i for i, it in enumerate(plan) if it and it[0] == "U" and fold(it[3]) == P and it[2] in ("mkdir", "rmtree", "rmdir")]
         mk = [i for i in idx if plan[i][2] == "mkdir"]
         dl = [i for i in idx if plan[i][2] != "mkdir"]
         if len(mk) >= 2 and dl and not any(_quiet(it) for it in plan[idx[0]:idx[-1]]):
             cands.add(P)
+        # the folder is deleted and made again without a quiet point in between (the first creation may be long synchronised)
+        for d in dl:
+            later = [m for m in mk if m > d]
+            if later and not any(_quiet(it) for it in plan[d:later[0]]):
+                cands.add(P)
     if not cands:
         return False
     if viol["cls"] == "nonquiescent":
         return True
     paths = _diff_paths(viol)
-    return bool(paths) and all(any(_related(_unconf(p), c) and (_unconf(p) == c or _unconf(p).startswith(c + "/")) for c in cands) for p in paths)
+    return bool(paths) and all(any(fold(_unconf(p)) == c or fold(_unconf(p)).startswith(c + "/") for c in cands) for p in paths)
 
 
 def m_conflicted_blocks_rmdir(f, case, viol):
